@@ -1098,6 +1098,8 @@ static void gen_relay(uint64_t seed, const std::string &prop, Plan &plan) {
     if (plan.p["tcp_buf"] < 2048) plan.p["tcp_buf"] = 2048 << r.below(4);
     plan.p["counters"] = 0;
     plan.p["ctl"] = 0;
+    // the relay's limit of simultaneous relayed connections, small enough to be reached: a further client is served once a slot is free
+    plan.p["max_relays"] = r.chance(0.3) ? (int64_t)r.range(1, 3) : 10000;
     if (plan.S("tp") == "btls" || plan.S("tp2") == "btls") plan.p["eintr_pm"] = 0;   // (an interrupted blocking send on an endpoint's own btls leg only re-finds KF-C02-1c)
     plan.p["retry_policy"] = 0;   // endpoints retry a refused byte-stream send with the same bytes (the other policies only re-find KF-C02-1 on their own btls leg)
     // the settle-point inspection presumes a direct connection (kernel idleness of one connection): not here
@@ -1126,9 +1128,13 @@ static std::string relay_addr(const std::string &tp, bool front) {
     return strf("%s:127.0.0.1:%d", tp.c_str(), port);
 }
 
+// hook in tools/xcmrelay/rserver.c (guarded by ERICSSON_XCM_VERIF): the relay's administrative limit as a knob
+extern "C" { int ericsson_xcm_verif_max_relays = 10000; }
+
 static void setup_relay(const Plan &plan) {
     setup(plan);
     CX->relay = true;
+    ericsson_xcm_verif_max_relays = (int)plan.P("max_relays", 10000);
     CX->tp2 = plan.S("tp2", "tcp");
     CX->front_addr = relay_addr(CX->tp, true);
     CX->addr = relay_addr(CX->tp2, false);
